@@ -43,6 +43,8 @@ def gen_program(rng):
         return start + rng.choice(["", " rest of the line", "x", " ", "  (tail"])
     vals.append("\"%s\"" % "\n".join(hostile_line() for _ in range(rng.randint(2, 5))))
     vals.append("'(1 \"%s\" 2)" % "\n".join(hostile_line() for _ in range(rng.randint(2, 3))))
+    # escape sequences (two source characters for one character of the string): what follows on the same line keeps its column
+    vals += ["\"tab\\there \\\"quoted\\\" back\\\\slash\\n\"", "(list \"a\\nb\" \"\\\\\" 2)", "\"\\t\\t\\t\""]
     # text outside ASCII (2-, 3- and 4-byte characters) in strings and symbols-as-strings
     vals += ["\"col1\rcol2 (a bare carriage return)\"", "(list \"x\ry\" 1)", "\"caf\u00e9 ouvert \u03bb\"", "\"\u65e5\u672c\u8a9e (\U0001F600) \u00fc\"", "(list \"\u00e9\" \"\u20ac\" 1)"]
     if rng.random() < 0.08:
